@@ -1,3 +1,4 @@
+mod bisync;
 mod c04;
 mod c04wire;
 mod c13;
@@ -21,9 +22,13 @@ fn main() {
     let out = arg(&args, "--out", "/dev/stdout");
     let work = std::path::PathBuf::from(arg(&args, "--work", "/verif/.build/work/tmp"));
     let chunk: usize = arg(&args, "--chunk", "262144").parse().unwrap();
+    let sy_bin = arg(&args, "--sy", "/verif/.build/target/debug/sy");
+    let replay: Option<String> = args.iter().position(|a| a == "--replay").and_then(|i| args.get(i + 1)).cloned();
     let rep = match stream {
         "c04" => c04::run(&tier, seed, &driver, chunk, &work),
         "c04wire" => c04wire::run(&tier, seed, &driver, &work),
+        "c11" => bisync::run("C11", &tier, seed, &driver, &work, &sy_bin, replay.as_deref()),
+        "c12" => bisync::run("C12", &tier, seed, &driver, &work, &sy_bin, replay.as_deref()),
         "c13" => c13::run(&tier, seed, &driver, &work),
         "c14" => c14::run(&tier, seed, &driver, &work),
         "c16" => {
